@@ -8,10 +8,11 @@ Section C.
 Variable xml bytes kid : Type.
 Variable ser : xml -> bytes.
 Variable par : bytes -> xml.
-Variable mask : xml -> xml.
+Variable proj : Type.
+Variable mask : xml -> proj.
 Notation document := (document xml bytes).
 Notation fsys := (fsys bytes kid).
-Notation view := (view xml bytes kid par mask).
+Notation view := (view xml bytes kid par proj mask).
 Notation d_clone := (d_clone xml bytes kid ser par).
 Notation c_clone := (c_clone bytes kid).
 
